@@ -206,6 +206,25 @@ CHECKS = {
              'the transaction.',
         design='5 (C12)',
         note='blob savepoints are covered by C13'),
+    'C13': dict(
+        technique='explicit-state exploration of all blob operation sequences '
+                  'up to a depth on a real connection over FileStorage with a '
+                  'blob directory, file-set / byte oracle after every step',
+        text='All sequences (depth 4 quick / 5 thorough, from the initial '
+             'state and from a state with an undone rewrite) over rewrite / '
+             'append / consumeFile on an existing and a new blob, link, '
+             'modify a plain object, savepoint, rollback, commit, abort, a '
+             'rival commit that makes ours conflict after the blob was '
+             'stored, a commit failing after the vote, DB.undo, pack. After '
+             'every step the set of .blob files must equal the committed, '
+             'unpacked blob revisions of the model with exactly their bytes '
+             'and read-only mode, nothing else may remain under the blob '
+             'directory once no transaction is in progress, the main '
+             'connection reads its working bytes and an observer only '
+             'committed bytes.',
+        design='5 (C13)',
+        note='blob records are byte-identical, so undo never conflicts on a '
+             'blob; redo of an undone creation is outside the alphabet'),
     'C19': dict(
         technique='explicit-state exploration of the real fsIndex over a '
                   '12-key alphabet, every query compared with a sorted dict',
